@@ -73,13 +73,44 @@ def items(tier, seed):
     for n, src, mono, thr in PROGRAMS:
         its.append(dict(name=f'cli_{n}', kind='cli', src=src, mono=mono, thresholds=thr, order=4 if tier == 'quick' else 6,
                         nmax=5 if tier == 'quick' else 8))
+    # tail bounds after termination (--after_loop): the bounds are limits of the finite-n bounds and must bound the law at loop exit (D32)
+    its.append(dict(name='cli_after_loop_tail', kind='after_tail', src="stop = 0\ncnt = 0\nwhile stop == 0:\n    stop = Bernoulli(1/3)\n    cnt = cnt + 1\nend",
+                    mono='cnt', thresholds=['1', '2', '5'] if tier == 'quick' else ['1', '2', '3', '5', '8']))
     for it in its: it.setdefault('src', it['name'])
     return its
+
+
+def check_after_tail(it):
+    viol, checked = [], 0
+    q = sp.Rational(2, 3)                     # cnt is geometric on 1, 2, ...: P(cnt >= a) = (2/3)**(a-1)
+    for a in it['thresholds']:
+        av = int(a)
+        st, so, se = common.run_cli(it['src'], ['--goals', f'P({it["mono"]} >= {a}) <= ?', f'P({it["mono"]} > {a}) >= ?', '--tail_bound_moments', '3', '--after_loop'], timeout=200)
+        checked += 1
+        if st == 'timeout': continue
+        if st != 'ok':
+            viol.append(dict(goal=f'after-loop tail bounds for threshold {a}', n=None, observed='error: ' + (se.strip().splitlines() or ['?'])[-1][:160], expected='bounds on the law at loop exit')); continue
+        ups, low = [], None
+        for line in so.splitlines():
+            mm = re.match(r'^\s*\((\d+)\) (.*)$', line)
+            if mm: ups.append(mm.group(2))
+            mm = re.match(r'^P\((.*) > (.*)\) >= (.*)$', line.strip())
+            if mm and '|' not in mm.group(1): low = mm.group(3)
+        p_ge = q ** (av - 1); p_gt = q ** av
+        if not ups: viol.append(dict(goal=f'after-loop upper bounds for threshold {a}', n=None, observed='none printed', expected='at least one bound'))
+        for b in ups:
+            bv = sp.sympify(b); checked += 1
+            if not (bv.is_number and bv >= p_ge): viol.append(dict(goal=f'after-loop P({it["mono"]} >= {a}) <= {b}', n=None, observed=str(b), expected=f'>= {p_ge}'))
+        if low is not None and av <= 1:          # the lower bound is stated under the printed assumption 'cnt - a is non-negative' (cnt >= 1 at exit)
+            lv = sp.sympify(low); checked += 1
+            if not (lv.is_number and lv <= p_gt): viol.append(dict(goal=f'after-loop P({it["mono"]} > {a}) >= {low}', n=None, observed=str(low), expected=f'<= {p_gt}'))
+    return dict(status='violation' if viol else 'ok', checked=checked, violations=viol, nontrivial=checked >= 4)
 
 
 def check_item(it):
     viol, checked = [], 0
     kind = it['kind']
+    if kind == 'after_tail': return check_after_tail(it)
     if kind in ('comb', 'convert', 'goals', 'expansions'):
         req = {}
         if kind == 'comb': req['comb'] = it['N']
